@@ -21,7 +21,7 @@ from dsmc.sched import DONE, Execution, Explorer
 from dsmc.tables import row, schema
 
 GRACE_MS = 3600_000
-OLD_S = 7200.0
+OLD_S = 10800.0  # 3 h: beyond the 1 h grace period, well inside the 24 h in-flight timeout
 LAG_S = 600.0
 
 
@@ -138,7 +138,7 @@ class C06World(TableWorld):
             elif a.state != "done" and ex.jumps < self.max_pauses and a.steps > 0 and self.gc_open == 0:
                 # never while a collection run is in progress: that run would last longer than the grace
                 # period, which the statement excludes
-                opts.append(("stall+2h", "T"))
+                opts.append(("stall+3h", "T"))
         return opts
 
     def _metadata_lock_free(self) -> bool:
@@ -263,7 +263,7 @@ def configs(tier: str, seed: int) -> List[Dict[str, Any]]:
         add(b, "rollback_old")
         if tier != "quick" or b == "s3":
             add(b, "append_fresh")
-        # the committing process stalls for 2 h (> grace) at any point; the collector runs during the stall
+        # the committing process stalls for 3 h (> grace) at any point; the collector runs during the stall
         add(b, "commit_old", bound=0 if tier == "quick" else 2, max_pauses=1)
         if tier != "quick":
             add(b, "append_fresh_2gc", bound=2, max_pauses=1)
@@ -276,7 +276,7 @@ def configs(tier: str, seed: int) -> List[Dict[str, Any]]:
         # a slow collection run (10 min << grace) with a whole append landing in the middle of it
         add(b, "append_fresh", bound=1, max_lags=1)
         # a whole collection run of another process lands atomically at any point of the append; the writer may stall
-        # for 2 h afterwards and the explored collector then runs
+        # for 3 h afterwards and the explored collector then runs
         add(b, "append_fresh+envgc", bound=1, max_pauses=1)
         if tier != "quick":
             add(b, "commit_old+committer", bound=0, max_pauses=1)
@@ -297,10 +297,10 @@ def run(tier: str, seed: int) -> Report:
                        "non-trivial = distinct (config, per-actor outcome)")
     rep.assumptions += [
         "grace period 1 h; the virtual duration of a run is milliseconds, so the proviso 'grace exceeds the run' holds",
-        "the transaction's data file and marker are aged 2 h before the exploration starts (file ages on the far side of grace); "
+        "the transaction's data file and marker are aged 3 h before the exploration starts (file ages on the far side of grace); "
         "the append_fresh variant covers the near side",
         "2-actor configurations unbounded; 3-actor configurations under the preemption bound in the config id",
-        "stall deviation: the transaction's process is frozen and the clock jumps 2 h (the statement bounds the duration of the "
+        "stall deviation: the transaction's process is frozen and the clock jumps 3 h (the statement bounds the duration of the "
         "collection run by the grace period, not the transaction's); configurations with it are preemption-bounded",
     ]
     return rep
